@@ -202,13 +202,16 @@ def write_universe(u, base: Path, rng=None, extra=None) -> Path:
     return base / ROOT
 
 
-def read_universe(pydsdl, u, base: Path, rng=None, extra=None, print_handler=None):
-    """Text route. Returns list of composites aligned with u."""
+def read_universe(pydsdl, u, base: Path, rng=None, extra=None, print_handler=None, extras=None):
+    """Text route. Returns list of composites aligned with u; extras (dict) receives whatever else the directory held."""
     root = write_universe(u, base, rng, extra)
     out = pydsdl.read_namespace(root, [], print_output_handler=print_handler)
     by = {(t.full_name, t.version.major, t.version.minor): t for t in out}
     if len(by) != len(out):
         raise AssertionError("duplicate composites returned by read_namespace")
+    if extras is not None:
+        mine = {(d["name"], d["ver"][0], d["ver"][1]) for d in u}
+        extras.update({k: v for k, v in by.items() if k not in mine})
     return [by[(d["name"], d["ver"][0], d["ver"][1])] for d in u]
 
 
@@ -242,6 +245,22 @@ def construct_type(pydsdl, t, built):
     raise ValueError(k)
 
 
+def construct_def(pydsdl, d, built, doc=lambda: "", name=None, path=None, parent_service=False):
+    attrs = []
+    for f in d["fields"]:
+        if "pad" in f:
+            attrs.append(pydsdl.PaddingField(pydsdl.VoidType(f["pad"]), doc()))
+        else:
+            attrs.append(pydsdl.Field(construct_type(pydsdl, f["type"], built), f["name"], doc()))
+    cls = pydsdl.UnionType if d["kind"] == "union" else pydsdl.StructureType
+    inner = cls(
+        name=name or d["name"], version=pydsdl.Version(*d["ver"]), attributes=attrs, deprecated=bool(d.get("deprecated")),
+        fixed_port_id=None if parent_service else d.get("port"), source_file_path=path or def_path(d),
+        has_parent_service=parent_service, doc=doc(),
+    )
+    return inner if d["sealed"] else pydsdl.DelimitedType(inner, d["extent"])
+
+
 def construct_universe(pydsdl, u, doc_rng=None):
     """doc_rng: if given, attributes and composites get random doc strings (docs never take part in equality)."""
     built = []
@@ -250,19 +269,26 @@ def construct_universe(pydsdl, u, doc_rng=None):
         return "" if doc_rng is None or doc_rng.random() < 0.4 else "doc %d" % doc_rng.randrange(1000)
 
     for d in u:
-        attrs = []
-        for f in d["fields"]:
-            if "pad" in f:
-                attrs.append(pydsdl.PaddingField(pydsdl.VoidType(f["pad"]), doc()))
-            else:
-                attrs.append(pydsdl.Field(construct_type(pydsdl, f["type"], built), f["name"], doc()))
-        cls = pydsdl.UnionType if d["kind"] == "union" else pydsdl.StructureType
-        inner = cls(
-            name=d["name"], version=pydsdl.Version(*d["ver"]), attributes=attrs, deprecated=bool(d.get("deprecated")),
-            fixed_port_id=d.get("port"), source_file_path=def_path(d), has_parent_service=False, doc=doc(),
-        )
-        built.append(inner if d["sealed"] else pydsdl.DelimitedType(inner, d["extent"]))
+        built.append(construct_def(pydsdl, d, built, doc))
     return built
+
+
+# ------------------------------------------------------------------------------------------------------------------
+# services: the request and the response section of `pvns.Svc.1.0` repeat the bodies of two definitions of the universe,
+# so each section must have exactly the layout R-layout gives for that definition
+# ------------------------------------------------------------------------------------------------------------------
+SERVICE_NAME = ROOT + ".Svc"
+SERVICE_PATH = Path(ROOT) / "Svc.1.0.dsdl"
+
+
+def service_text(u, i, j, rng=None) -> str:
+    return render_def(u[i], u, rng) + "---\n" + render_def(u[j], u, rng)
+
+
+def construct_service(pydsdl, u, built, i, j, port=None):
+    req = construct_def(pydsdl, u[i], built, name=SERVICE_NAME + ".Request", path=SERVICE_PATH, parent_service=True)
+    rsp = construct_def(pydsdl, u[j], built, name=SERVICE_NAME + ".Response", path=SERVICE_PATH, parent_service=True)
+    return pydsdl.ServiceType(request=req, response=rsp, fixed_port_id=port)
 
 
 def universe_sig(u):
